@@ -25,7 +25,7 @@ def gen_literal(rng, lang: str):
     """(text, value as (mant, scale), is_float_node, form)"""
     form = rng.choice({
         "python": ["dec", "dec", "dec", "hex", "oct", "bin", "under", "float", "exp", "small"],
-        "typescript": ["dec", "dec", "dec", "hex", "hexe", "oct", "bin", "under", "float", "exp", "bigint", "legacy", "small"],
+        "typescript": ["dec", "dec", "dec", "hex", "hexe", "oct", "bin", "under", "float", "exp", "bigint", "legacy", "legacy_dec", "small"],
         "javascript": ["dec", "dec", "hex", "hexe", "float", "exp", "small"],
         "rust": ["dec", "dec", "dec", "hex", "oct", "bin", "under", "suffix", "suffix", "float", "fsuffix", "exp", "hexf32", "small"],
     }[lang])
@@ -64,6 +64,9 @@ def gen_literal(rng, lang: str):
         return f"{n}n", (n, 0), False, form
     if form == "legacy":
         return "0" + format(n, "o"), (n, 0), False, form
+    if form == "legacy_dec":      # a leading zero followed by a digit 8 or 9: JavaScript reads it as decimal
+        v = rng.choice([89, 98, 128, 809, 1998, 65538])
+        return "0" + str(v), (v, 0), False, form
     if form == "suffix":
         suf = rng.choice(["u8", "u16", "u32", "u64", "u128", "usize", "i8", "i16", "i32", "i64", "i128", "isize"])
         v = n % 120 + 6 if suf in ("u8", "i8") else n
